@@ -3,7 +3,7 @@ debounce / throttle_with_timeout, throttle_first, throttle_with_mapper, sample(p
 from harness import core
 from props import time_common as tc
 
-BASE = dict(MaxLen=3, MaxT=4, Small=set(), MaxLenS=2, MaxTS=3, Ds={0, 1, 2}, AbsLo=1, Terms={"C", "E", "U"}, AuxLen=2,
+BASE = dict(MaxLen=3, MaxT=4, Lo=1, Small=set(), MaxLenS=2, MaxTS=3, Ds={0, 1, 2}, AbsLo=1, Terms={"C", "E", "U"}, AuxLen=2,
             SpecKs={"N", "C", "E", "U"}, SpecTs={0, 1, 2}, Hz=7, DispOps=set(), DispLen=1)
 
 QUICK = [(["debounce", "throttle_first", "sample"], dict(DispOps={"debounce"})),
